@@ -239,6 +239,34 @@ def hermitian_cases(draw, tier):
     return {"A": A, "lam": lam, "gen": info, "seed": draw(gen.seeds()), "mult": mult, "tol": tol}
 
 
+@st.composite
+def long_hermitian_cases(draw, tier):
+    """Orders just past the blocking sizes 32 / 64: one quaternion reflector around a prescribed gap spectrum."""
+    n = draw(st.sampled_from([33, 64, 65] if tier == "quick" else [33, 64, 65, 100, 129]))
+    lam, info = draw(gap_spectrum(n))
+    rng = np.random.RandomState(draw(gen.seeds()))
+    Uq = gen.householder(rng.standard_normal((n, 4)))
+    A = gen.make_hermitian(ref.qmm(ref.scale_cols(Uq, np.asarray(lam, dtype=float)), ref.conjT(Uq)))
+    return {"A": A, "lam": lam, "gen": dict(info, long=True), "seed": draw(gen.seeds()),
+            "mult": draw(st.sampled_from([1, 2])), "tol": draw(st.sampled_from([None, 1e-10, 1e-12]))}
+
+
+@st.composite
+def long_arbitrary_cases(draw, tier):
+    n = draw(st.sampled_from([33, 64, 65] if tier == "quick" else [33, 64, 65, 100, 129]))
+    A, pat = draw(gen.long_qarray(n, n))
+    kind = draw(st.sampled_from(["plain", "plain", "nilpotent", "hermitian", "scaled"]))
+    if kind == "nilpotent":
+        for i in range(n):
+            A[i, : i + 1] = 0.0
+    elif kind == "hermitian":
+        A = gen.make_hermitian(A)
+    elif kind == "scaled":
+        A = A * 10.0 ** draw(st.sampled_from([-9, -3, 3, 9]))
+    return {"A": np.ascontiguousarray(A), "kind": kind, "seed": draw(gen.seeds()),
+            "max_iterations": draw(st.sampled_from([None, 0, 1, 3, 30])), "tol": draw(st.sampled_from([None, 1e-10]))}
+
+
 ARB_KINDS = ("plain",) * 8 + ("scaled",) * 3 + ("nilpotent",) * 2 + ("rank_one",) * 2 + ("complex",) * 2 + (
     "hermitian", "neg_identity")
 ARB_PATTERNS = ("generic",) * 6 + ("int",) * 3 + ("pure_imag",) * 2 + ("sparse",) * 2 + ("axis", "unit", "zero")
@@ -549,6 +577,10 @@ PROPERTY = Property(
     clauses=[
         Clause("hermitian_gap", check_hermitian, strategy=hermitian_cases, budget={"quick": 2000, "thorough": 30000}),
         Clause("arbitrary", check_arbitrary, strategy=arbitrary_cases, budget={"quick": 2000, "thorough": 30000}),
+        Clause("hermitian_gap_long_dimension", check_hermitian, strategy=long_hermitian_cases,
+               budget={"quick": 16, "thorough": 160}, shrink=False),
+        Clause("arbitrary_long_dimension", check_arbitrary, strategy=long_arbitrary_cases,
+               budget={"quick": 16, "thorough": 160}, shrink=False),
         Clause("nonhermitian_variant", check_nh, strategy=nh_cases, budget={"quick": 2000, "thorough": 30000}),
         Clause("boundary_enumerated", check_boundary, enumerate=enum_boundary, budget={"quick": 0, "thorough": 0}),
     ],
